@@ -560,6 +560,7 @@ func (x *Exec) havocLoop(st *State, env *Env, ef *loopEffects) {
 	entry := st.clone()
 	touched := map[string]bool{}
 	modArrs := map[string][]string{}
+	wholeKey := map[string]bool{} // heaps havoced without frame (written array unknown at loop entry)
 	allHeaps := false
 	havocPath := func(p string, t types.Type) {
 		x.leafPaths(p, t, func(lp string, lt types.Type) {
@@ -590,17 +591,56 @@ func (x *Exec) havocLoop(st *State, env *Env, ef *loopEffects) {
 	}
 	x.specDepth++ // no obligations while resolving l-values for havoc
 	for _, le := range ef.lvExprs {
+		// the array that is written: the slice operand of the innermost index expression
+		var base ast.Expr
+		cur := ast.Unparen(le)
+	strip:
+		for {
+			switch t := cur.(type) {
+			case *ast.SelectorExpr:
+				cur = ast.Unparen(t.X)
+			case *ast.IndexExpr:
+				base = t.X
+				break strip
+			default:
+				break strip
+			}
+		}
 		func() {
 			defer func() {
 				if r := recover(); r != nil {
 					if _, ok := r.(abortErr); ok {
-						// l-value not resolvable at loop entry (uses loop-local variables): be conservative
+						// not resolvable at loop entry (uses loop-local variables)
+						if base != nil {
+							if sl, ok := x.typeOf(base).Underlying().(*types.Slice); ok {
+								// all arrays of this element type may be written
+								for _, lf := range x.leaves(sl.Elem()) {
+									k := heapKey(sl.Elem(), lf.Path)
+									x.heap(st, sl.Elem(), lf)
+									touched[k] = true
+									wholeKey[k] = true
+								}
+								return
+							}
+						}
 						allHeaps = true
 						return
 					}
 					panic(r)
 				}
 			}()
+			if base != nil {
+				if _, isSl := x.typeOf(base).Underlying().(*types.Slice); isSl {
+					sv := x.eval(base, entry, env).(Slice)
+					for _, lf := range x.leaves(sv.Elem) {
+						k := heapKey(sv.Elem, lf.Path)
+						x.heap(st, sv.Elem, lf)
+						touched[k] = true
+						modArrs[k] = append(modArrs[k], sv.Arr)
+					}
+					return
+				}
+			}
 			lv := x.evalLV(le, entry, env)
 			if lv.Sl != nil {
 				for _, lf := range x.leaves(lv.Sl.Elem) {
@@ -636,7 +676,7 @@ func (x *Exec) havocLoop(st *State, env *Env, ef *loopEffects) {
 		h := x.heapCur(entry, k)
 		lf := x.heapLeaf[k]
 		nh := c.fresh("H_"+k, heapSort(lf.Sort))
-		if !allHeaps {
+		if !allHeaps && !wholeKey[k] {
 			a := fmt.Sprintf("a!%d", c.n)
 			conds := []string{app("<", a, entry.alloc)}
 			for _, m := range modArrs[k] {
@@ -659,7 +699,7 @@ func (x *Exec) havocLoop(st *State, env *Env, ef *loopEffects) {
 			}
 		}
 	}
-	x.loopFrames = append(x.loopFrames, &loopFrame{alloc: entry.alloc, arrs: modArrs, all: allHeaps, auto: autos})
+	x.loopFrames = append(x.loopFrames, &loopFrame{alloc: entry.alloc, arrs: modArrs, all: allHeaps, auto: autos, whole: wholeKey})
 }
 
 // havocForCall havocs what a call inside a loop body may modify.
